@@ -24,6 +24,12 @@ CLAIMS = {
  "C06": ("model_checking",
          "Cache.tla's accounting part (RFC 3550 counters, 32-bit loss bitmap, the receive loop's NACK decision) is checked against N1-N4/S1-S3: steady streams exhaustively, lossy/late/restart histories breadth-first under a time budget; the faithful switch re-finds the repaired finding F20; real Store/BitmapGet/Expect/GetStats/ToBitmap executions at the real constants are validated by TLC.",
          "readLoop/nackWriter read from a pion TrackRemote and are not driven directly: the driver executes the loop's arithmetic as transcribed in the spec"),
+ "C10": ("model_checking",
+         "Group.tla (one action per critical section of group.go: add/reload+autoLockKick, admission, departure, SetLocked) is checked exhaustively against the admission monitor for 2 operators + 2 non-operators over every description and reload and all interleavings; the faithful switch re-finds the repaired F5 window; the real group package is driven sequentially (TLC-simulated + seeded operation sequences, real description files and reloads), by a forced schedule through the hooks, and by racing goroutines, all recorded in linearisation order by hooks numbered under Group.mu and validated by TLC.",
+         "fake group.Client values stand in for web clients; time-window edges are an hour away from now"),
+ "C13": ("model_checking",
+         "Queue.tla (unbounded.Channel, instruction-level) is checked exhaustively (exactly-once/in-order, no lost wake-up, liveness) and EVERY complete interleaving TLC enumerates (2548 for 2x2) is forced on the real Channel through the hook in Put and validated by TLC; Locks.tla (lock/guarded-access sequences of 10 lifecycle operations) is checked for deadlock and lockset discipline over every pair and triple, its faithful switches re-finding F4/F5/F8/F18; on the real code the deadlock schedules are forced with gates + watchdog + goroutine dump, and racing rounds run under the race detector.",
+         "data races are decided by Go's race detector on executed rounds; Locks.tla is a hand transcription of the lock sequences (drift is only visible through the forced schedules and the race rounds)"),
 }
 REASON_DEFAULT = "check under construction (not yet registered); see DESIGN.md section 5"
 NA = {}
